@@ -94,6 +94,17 @@ class L2Domain:
         for x in kwargs.values():
             walk(x)
         self.ctx.cur_operands = tuple(ops)
+        dead = getattr(self.ctx, 'destroyed', None)
+        if dead:
+            direct = [x for x in list(args) + list(kwargs.values()) if isinstance(x, Arr)]
+            if f is not None and isinstance(getattr(f, '__self__', None), Arr):
+                direct.append(f.__self__)
+            for o in direct:          # (arrays that merely sit in a list that is being indexed or stored into are not read)
+                if o.buf.uid in dead:
+                    what, wh = dead[o.buf.uid]
+                    self.ctx.event('use-after-destroy', operand=o, what=what, destroyed_at=wh,
+                                   detail=f'an array is read at {it_where(self)} after {what} was allowed to overwrite its buffer ({wh})')
+                    del dead[o.buf.uid]          # report once per destroyed buffer
 
     def on_setattr(self, it, inst, attr, v):
         if attr == 'cores' and isinstance(v, list):
@@ -174,6 +185,11 @@ class L2Domain:
             self.last_symidx = SymIdx(x.lo, x.hi)
             return iter([self.last_symidx])
         return None
+
+
+def it_where(dom):
+    it = A.CTX.interp
+    return it.where() if it is not None else '?'
 
 
 class SymList(list):
